@@ -13,6 +13,10 @@ RULE = ('(a) draw signatures: every random-consuming API (rand/randn/normal/rand
         'float32 fan-out graph whose six-fold accumulation order shows in the last bits) are hashed (tensors, gradients, parameters, '
         'bit patterns) 8 times in-process with different amounts of live garbage in between (so addresses differ) and in fresh '
         'processes under 3 (quick) / 12 (thorough) PYTHONHASHSEED values and allocation preludes; all hashes must be identical. '
+        '(c) FAULTS: the same programs ending in a section where the program meets faults, catches them and carries on — an exception raised by the library or by user code inside no_grad (plain, nested) / retain_grads blocks, '
+        'inside Module.forward in training mode, inside optimizer.step (corrupted gradient), inside backward, inside a DataLoader transform, inside the Trainer callbacks, inside the criterion during validation, inside Trainer.test — '
+        'every subset drawn per case, one case with all of them; each such program is run three times in ONE fresh process (and in several processes): the second and third run must reproduce the first '
+        '(each run also hashes what the process-wide switches do: whether a product of a leaf tracks, whether a non-leaf keeps its gradient). '
         'Non-trivial: a program that draws from >= 3 different APIs and trains.')
 EXHAUSTIVE = {'quick': False, 'thorough': False}
 ASSUMPTIONS = ['NumPy generators and BLAS are deterministic given the same state and inputs (not modelled)']
@@ -45,8 +49,13 @@ def cases(rng, tier):
     nprog = 6 if tier == 'quick' else 40
     for k in range(nprog):       # boundary seeds first
         out.append({'kind': 'prog', 'seed': [0, 1, 2 ** 32 - 1][k] if k < 3 else rng.randrange(2 ** 31), 'variant': rng.randrange(4), 'hashseeds': 6 if tier == 'quick' else 12, 'lines': ['rng dropout 1 0']})
+    # programs that meet faults and survive them: all fault points at once, then random subsets (order of the blocks is fixed)
+    for k in range(4 if tier == 'quick' else 40):
+        fs = list(FAULT_POINTS) if k == 0 else [f for f in FAULT_POINTS if rng.chance(.35)] or [rng.pick(FAULT_POINTS)]
+        out.append({'kind': 'prog', 'seed': rng.randrange(2 ** 31), 'variant': rng.randrange(4), 'hashseeds': 2 if tier == 'quick' else 6, 'faults': fs, 'lines': ['rng dropout 1 0']})
     for c in out:
         c['desc'] = {k: v for k, v in c.items() if k != 'lines'}
+    _FAULT_BATCH[:] = [c for c in out if c.get('faults')]
     return out
 
 
@@ -97,10 +106,126 @@ import warnings; warnings.simplefilter('ignore')
 import synapgrad as sg
 from synapgrad import nn, optim
 from synapgrad.nn.utils.data import split_dataset
-def program(seed, variant, layout=0):
+class Fault(Exception): pass
+FAULTS = ('no_grad/library-raises', 'no_grad/user-raises', 'no_grad/nested', 'retain_grads/user-raises', 'retain_grads/backward-raises', 'forward/train-mode',
+          'optimizer-step', 'backward', 'dataloader/transform-raises', 'trainer/train-callback', 'trainer/validation-callback', 'trainer/validation-criterion', 'trainer/test')
+def observe_modes(add):
+    # what the process-wide switches do to a computation (not their names): does a product of a leaf track, does a non-leaf keep its gradient
+    t = sg.Tensor(np.array([1.0, 2.0]), requires_grad=True)
+    y = t * 2.0
+    add(np.array([t.requires_grad, y.requires_grad, y.grad_fn is not None, len(y._children)], dtype=np.int64))
+    if y.requires_grad:
+        (y * y).sum().backward()
+        add(np.array([y._grad is None, t._grad is None], dtype=np.int64))
+def run_faults(add, faults):
+    # the program meets faults, catches them and carries on (a malformed batch, an interrupted step, a callback that gives up);
+    # each block is an ordinary, deterministic piece of user code
+    from synapgrad.nn.utils.data import DataLoader
+    from synapgrad.nn.utils.train import Trainer, Evaluator
+    caught = []
+    model = nn.Sequential(nn.Linear(4, 3), nn.ReLU(), nn.BatchNorm1d(3), nn.Dropout(0.2), nn.Linear(3, 1))
+    opt = optim.SGD(model.parameters(), lr=0.05, momentum=0.5)
+    X = np.random.rand(12, 4).astype(np.float32); y = (np.arange(12) % 2).astype(np.float32)
+    good, bad = sg.Tensor(X[:4]), sg.Tensor(X[:4, :3])
+    def guarded(name, f):
+        if name not in faults: return
+        try:
+            f()
+            caught.append(0)
+        except (Exception, Fault) as e:
+            caught.append(1)
+    def f_ng_lib():
+        with sg.no_grad():
+            add(model(good).data); model(bad)                 # the layer rejects the malformed batch inside the block
+    def f_ng_user():
+        with sg.no_grad():
+            add((good * 2.0).data); raise Fault('give up')
+    def f_ng_nested():
+        with sg.no_grad():
+            try:
+                with sg.no_grad():
+                    raise Fault('inner')
+            except Fault:
+                caught.append(2)
+            add((good + 1.0).data)
+        with sg.no_grad():
+            with sg.no_grad():
+                model(bad)
+    def f_rg_user():
+        w = sg.Tensor(np.array([1.0, -2.0, 3.0]), requires_grad=True)
+        with sg.retain_grads():
+            u = w * w; (u * 3.0).sum().backward(); add(u._grad); add(w._grad)
+            raise Fault('after backward')
+    def f_rg_bw():
+        w = sg.Tensor(np.array([1.0, -2.0, 3.0]), requires_grad=True)
+        with sg.retain_grads():
+            (w * w).backward()                                # non-scalar root without a gradient: backward raises inside the block
+    def f_fwd():
+        model.train(); add(model(good).data); model(bad)
+    def f_step():
+        model.train()
+        nn.MSELoss()(model(good).squeeze(dim=1), sg.Tensor(y[:4])).backward()
+        last = model.parameters()[-2]
+        keep = last._grad
+        last._grad = np.zeros((7, 7), dtype=np.float32)       # a corrupted gradient: the update of this parameter raises in the middle of step()
+        try: opt.step()
+        finally: last._grad = keep
+    def f_bw():
+        w = sg.Tensor(np.array([[1.0, 2.0], [3.0, 4.0]]), requires_grad=True)
+        ((w @ w) * w).backward(sg.Tensor(np.ones((3, 3))))    # gradient of the wrong shape
+    def f_dl():
+        class TF:
+            n = 0
+            def __call__(self, dl, Xb, yb):
+                TF.n += 1
+                if TF.n == 2: raise Fault('bad batch')
+                return sg.Tensor(Xb), sg.Tensor(yb)
+        dl = DataLoader(X, y, 4, TF())
+        for k in range(2):
+            try:
+                for xb, yb in dl: add(model(xb).data)
+            except Fault:
+                caught.append(3)
+    def trainer():
+        tr = Trainer(model, sg)
+        tr.compile(nn.MSELoss(), opt, Evaluator(mode=Evaluator.BINARY))
+        TFm = lambda dl, Xb, yb: (sg.Tensor(Xb), sg.Tensor(yb))
+        return tr, DataLoader(X, y, 4, TFm), DataLoader(X[:8], y[:8], 4, TFm)
+    def f_tr_cb():
+        tr, tl, vl = trainer()
+        n = [0]
+        def cb(m, l):
+            n[0] += 1
+            if n[0] == 2: raise Fault('stop training')
+        tr.fit(tl, 3, validation_loader=vl, on_train_epoch=cb)
+    def f_val_cb():
+        tr, tl, vl = trainer()
+        def cb(m, l): raise Fault('stop validating')
+        tr.fit(tl, 2, validation_loader=vl, on_validation_epoch=cb)
+    def f_val_crit():
+        tr, tl, vl = trainer()
+        base = nn.MSELoss()
+        def crit(out, lab):
+            if not model.training: raise Fault('criterion fails on the validation batch')
+            return base(out, lab)
+        tr.criterion = crit
+        tr.fit(tl, 2, validation_loader=vl)
+    def f_test():
+        tr, tl, vl = trainer()
+        class L:
+            def __iter__(self):
+                yield sg.Tensor(X[:4]), sg.Tensor(y[:4])
+                yield sg.Tensor(X[:4, :3]), sg.Tensor(y[:4])      # malformed batch inside Trainer.test's no_grad block
+        tr.test(L())
+    for name, f in zip(FAULTS, (f_ng_lib, f_ng_user, f_ng_nested, f_rg_user, f_rg_bw, f_fwd, f_step, f_bw, f_dl, f_tr_cb, f_val_cb, f_val_crit, f_test)):
+        guarded(name, f)
+    add(np.array(caught, dtype=np.int64))
+    for p_ in model.parameters(): add(p_.data)
+def program(seed, variant, layout=0, faults=()):
     h = hashlib.sha256()
     def add(a): h.update(np.ascontiguousarray(a).tobytes()); h.update(str(a.shape).encode()); h.update(str(a.dtype).encode())
     sg.manual_seed(seed)
+    observe_modes(add)
     X = sg.rand(24, 5); add(X.data)
     noise = sg.randn(24, 5); add(noise.data)
     y = sg.randint(0, 3, (24,)); add(y.data)
@@ -152,6 +277,10 @@ def program(seed, variant, layout=0):
         msk = sg.Tensor(np.array([1.0, 0.0, 2.0, 0.0, 0.0], dtype=np.float32))
         for _ in range(2):
             o.zero_grad(); (q * msk).sum().backward(); o.step(); add(q.data)
+    # faults met and survived at the END of the run: the next run in this process must not notice that they happened
+    if faults:
+        run_faults(add, faults)
+        observe_modes(add)
     return h.hexdigest()
 '''
 
@@ -173,10 +302,51 @@ def _prog_subprocess(seed, variant, hashseed):
     return p.stdout.strip().split('\n')[-1]
 
 
+FAULT_POINTS = ['no_grad/library-raises', 'no_grad/user-raises', 'no_grad/nested', 'retain_grads/user-raises', 'retain_grads/backward-raises', 'forward/train-mode',
+                'optimizer-step', 'backward', 'dataloader/transform-raises', 'trainer/train-callback', 'trainer/validation-callback', 'trainer/validation-criterion', 'trainer/test']
+NREP_FAULTS = 3
+
+
+def _prog_faults_subprocess(seed, variant, hashseed, faults):
+    """the program with its fault section, NREP_FAULTS times in ONE fresh process; returns the list of hashes (a run that raises
+    gives `raised:<type>`)"""
+    code = (f"STUBS={os.path.join(common.VERIF, 'harness', 'stubs')!r}\nREPO={common.REPO!r}\n" + PROGRAM +
+            f"\nassert list(FAULTS) == {FAULT_POINTS!r}\nimport io, contextlib\nres = []\nfor k in range({NREP_FAULTS}):\n"
+            f"    try:\n        with contextlib.redirect_stdout(io.StringIO()): res.append(program({seed}, {variant}, {hashseed % 13}, {tuple(faults)!r}))\n"
+            f"    except Exception as e: res.append('raised:' + type(e).__name__ + ':' + str(e)[:80].replace(' ', '_'))\nprint('HASHES ' + ' '.join(res))\n")
+    env = dict(os.environ, PYTHONHASHSEED=str(hashseed))
+    p = subprocess.run([sys.executable, '-c', code], capture_output=True, text=True, env=env, timeout=300)
+    last = [l for l in p.stdout.split('\n') if l.startswith('HASHES ')]
+    if p.returncode != 0 or not last:
+        return ['rejected:' + p.stderr[-300:]]
+    return last[-1].split(' ')[1:]
+
+
+def _fault_runs(c, faults=None, nproc=None):
+    from concurrent.futures import ThreadPoolExecutor
+    faults = c['faults'] if faults is None else faults
+    with ThreadPoolExecutor(max_workers=min(16, os.cpu_count() or 4)) as ex:
+        return list(ex.map(lambda k: _prog_faults_subprocess(c['seed'], c['variant'], 1 + 7919 * k, faults), range(nproc or c['hashseeds'])))
+
+
 NREP = 8
 
 
+_FAULT_BATCH = []       # the fault cases of the current run: their fresh processes are started together
+
+
 def _hashes(c):
+    if c.get('faults'):
+        if any(c is b for b in _FAULT_BATCH):
+            if '_runs' not in c:
+                from concurrent.futures import ThreadPoolExecutor
+                jobs = [(b, k) for b in _FAULT_BATCH for k in range(b['hashseeds'])]
+                with ThreadPoolExecutor(max_workers=min(16, os.cpu_count() or 4)) as ex:
+                    res = list(ex.map(lambda j: _prog_faults_subprocess(j[0]['seed'], j[0]['variant'], 1 + 7919 * j[1], j[0]['faults']), jobs))
+                for b in _FAULT_BATCH: b['_runs'] = []
+                for (b, k), r in zip(jobs, res): b['_runs'].append(r)
+            return [h for run in c['_runs'] for h in run]
+        return [h for run in _fault_runs(c) for h in run]
     keep = []
     hs = []
     for k in range(NREP):
@@ -200,7 +370,7 @@ def compare(c, mo, io):
     if c['kind'] == 'sig':
         return [(c['lines'][0], m, i) for m, i in zip(mo, io) if m != i]
     hs = c.get('_hs')
-    if hs == 'rejected' or any(str(h).startswith('rejected') for h in hs):
+    if hs == 'rejected' or any(str(h).startswith(('rejected', 'raised')) for h in hs):
         return [('program', 'runs', str(hs)[:300])]
     if len(set(hs)) != 1:
         return [('program', 'identical hashes over repetitions / processes / PYTHONHASHSEED', str(hs))]
@@ -214,8 +384,10 @@ def nontrivial(c):
 def distribution(cases):
     d = {}
     for c in cases:
-        k = c['kind'] + ':' + c.get('api', f"variant{c.get('variant')}")
+        k = c['kind'] + ':' + c.get('api', f"variant{c.get('variant')}") + ('+faults' if c.get('faults') else '')
         d[k] = d.get(k, 0) + 1
+        for f in c.get('faults', []):
+            d[f'fault survived: {f}'] = d.get(f'fault survived: {f}', 0) + 1
     return d
 
 
@@ -230,8 +402,10 @@ def oracle(c):
             # decide by a direct double run: same seed twice must give the same tensor
             return None
         return None
-    hs = outcome(lambda: _hashes(c))
     cc = {k: v for k, v in c.items() if not k.startswith('_') and k not in ('lines', 'desc')}
+    if c.get('faults'):
+        return _oracle_faults(c, cc)
+    hs = outcome(lambda: _hashes(c))
     if hs == 'rejected' or any(str(h).startswith('rejected') for h in hs):
         return {'key': {'cls': 'program-raises'}, 'case': cc, 'what': f'seeded program raised: {hs}'}
     if len(set(hs)) != 1:
@@ -241,7 +415,37 @@ def oracle(c):
     return None
 
 
+def _oracle_faults(c, cc):
+    """the program with its fault section, three times in one fresh process: every fault point of the case alone first (the
+    smallest failing program), then all of them together"""
+    def judge(runs):
+        flat = [h for r in runs for h in r]
+        if any(h.startswith('rejected') for h in flat):
+            return 'program-raises', f'the fresh process failed: {flat}'
+        for r in runs:
+            if len(set(r)) != 1:
+                return 'in-process-after-fault', f'runs 1..{len(r)} of the same seeded program in ONE fresh process gave {r}'
+        if len(set(flat)) != 1:
+            return 'across-processes', f'fresh processes under different PYTHONHASHSEED gave {flat}'
+        return None
+    singles = [[f] for f in c['faults']] if len(c['faults']) > 1 else []
+    sets = singles + [list(c['faults'])]
+    from concurrent.futures import ThreadPoolExecutor
+    jobs = [(i, k) for i in range(len(sets)) for k in range(2)]
+    with ThreadPoolExecutor(max_workers=min(16, os.cpu_count() or 4)) as ex:
+        res = list(ex.map(lambda j: _prog_faults_subprocess(c['seed'], c['variant'], 1 + 7919 * j[1], sets[j[0]]), jobs))
+    for i, fs in enumerate(sets):
+        v = judge([r for (i_, _), r in zip(jobs, res) if i_ == i])
+        if v:
+            return {'key': {'cls': v[0], 'faults': fs}, 'case': dict(cc, faults=fs),
+                    'what': f'a seeded program that met and survived the fault(s) {fs} does not reproduce itself: {v[1]}'}
+    return None
+
+
 def search(rng, tier):
+    c = {'kind': 'prog', 'seed': rng.randrange(2 ** 31), 'variant': rng.randrange(4), 'hashseeds': 2, 'faults': list(FAULT_POINTS), 'lines': ['rng dropout 1 0']}
+    f = oracle(c)
+    if f: yield f
     for v in range(4):
         c = {'kind': 'prog', 'seed': rng.randrange(2 ** 31), 'variant': v, 'hashseeds': 4, 'lines': ['rng dropout 1 0']}
         f = oracle(c)
